@@ -111,8 +111,8 @@ def run_case(case, want_trace=False):
                 interleaved = True
             last_client_on_key[shared] = ci
             opts = [(R.O_URI_PATH, p) for p in res]
-            if query:
-                opts.append((R.O_URI_QUERY, query))
+            for q in query.split("&") if query else ():
+                opts.append((R.O_URI_QUERY, q))  # (several entries: all of them are part of the cache key)
             token = bytes([0x90 + ci, si])
             handler_before = len([e for e in net.events if e[1] == "handler"])
             kind = st_["kind"]
@@ -208,7 +208,7 @@ def run_case(case, want_trace=False):
                     vio.append(V("C06/handler-invocations", "%s: handler ran %d times, expected once with %d bytes" % (desc, len(invoked), len(body))))
                     return None
                 e = invoked[0]
-                if e[6] != body or e[3] != CLIENTS[ci] or e[4] != method or e[5] != ((query,) if query else ()):
+                if e[6] != body or e[3] != CLIENTS[ci] or e[4] != method or e[5] != (tuple(query.split("&")) if query else ()):
                     vio.append(V("C06/handler-got-wrong-body", "%s: handler saw %d bytes from %s method %d query %r; model body %d bytes" % (desc, len(e[6]), e[3], e[4], e[5], len(body))))
                 return e[7]
 
@@ -340,7 +340,7 @@ def _step(draw):
         "kind": kind,
         "client": draw(st.sampled_from([0, 0, 0, 1, 2])),
         "res": draw(st.sampled_from([0, 0, 0, 1, 2])),
-        "query": draw(st.sampled_from(["", "", "", "k=1"])),
+        "query": draw(st.sampled_from(["", "", "k=1", "a=1&k=1", "a=2&k=1", "a=1&k=1", "a=2&k=1"])),
         "method": draw(st.sampled_from(["PUT", "PUT", "PUT", "POST", "FETCH", "GET"])),
         "szx": draw(st.sampled_from([0, 0, 0, 1, 2, 6])),
         "idle": draw(st.sampled_from(IDLES)),
@@ -397,6 +397,38 @@ def cases_slow_transfers():
                     yield {"steps": steps, "render_lens": [3000], "rng": 0}
 
 
+def cases_key_pairs():
+    """finite grid: two transfers of one endpoint on one resource whose keys differ in exactly one respect (one entry of
+    the query list, their order, the method, the resource), blocks interleaved ABAB / ABBA; then Block2 reads of both"""
+    variants = [
+        ({"query": "a=1&k=1"}, {"query": "a=2&k=1"}),
+        ({"query": "k=1&a=1"}, {"query": "k=1&a=2"}),
+        ({"query": "a=1&k=1"}, {"query": "k=1&a=1"}),
+        ({"query": "k=1"}, {"query": ""}),
+        ({"query": "a=1&k=1"}, {"query": "k=1"}),
+        ({"method": "PUT"}, {"method": "POST"}),
+        ({"res": 0}, {"res": 1}),
+        ({"client": 0}, {"client": 1}),
+        ({"client": 0}, {"client": 2}),
+    ]
+    for va, vb in variants:
+        for szx in (0, 2):
+            for order in ("ABAB", "ABBA", "AABB"):
+                base = {"client": 0, "res": 0, "query": "k=1", "method": "PUT", "szx": szx, "idle": 0.0, "kind": "block1", "plen": 9, "lenkind": "exact", "num": 1}
+                a, b = dict(base, **va), dict(base, **vb)
+                seen = {"A": 0, "B": 0}
+                steps = []
+                for ch in order:
+                    proto = a if ch == "A" else b
+                    steps.append(dict(proto, rel="next" if seen[ch] else "restart", final=bool(seen[ch])))
+                    seen[ch] += 1
+                # read both responses back block by block (renderings are serial-numbered, so a foreign slice shows)
+                for ch, num in (("A", 1), ("B", 1), ("A", 2)):
+                    proto = a if ch == "A" else b
+                    steps.append(dict(proto, kind="block2", num=num, szx=szx))
+                yield {"steps": steps, "render_lens": [200], "rng": 0}
+
+
 def selftest():
     import aiocoap.blockwise as bw
 
@@ -417,7 +449,7 @@ def selftest():
 
 
 RULE = (
-    "Histories of 1-25 requests from 3 raw clients (two share an IP) to a real aiocoap server with three resources (one in a nested site): per step client, resource, query (none / k=1), "
+    "Histories of 1-25 requests from 3 raw clients (two share an IP) to a real aiocoap server with three resources (one in a nested site): per step client, resource, query (none / k=1 / a=1&k=1 / a=2&k=1), "
     "method (PUT/POST/FETCH/GET), an idle time before it from {0,1,50,92,94,150,185,187,400 s} and one of: Block1 block chosen relative to the model state of that key (next in order / restart at 0 / "
     "repeat / skip one / an earlier one / absolute number / the next block of another key's assembly on that resource), final or not, size exponent 0/1/2/6, payload exact / one byte short / one byte long / empty / half / two or three times the block size, optionally with Block2 (0, szx); a plain request; a Block2 "
     "request for block 0-4 or far beyond the end. Handlers record (body, endpoint, method, query) and return a serial-numbered rendering of generated length (0 ... 3000). Oracle = reference model keyed "
@@ -431,6 +463,7 @@ def build(tier):
     return CheckSpec(
         [
             Sub("block2_grid", run_case, cases=cases_block2_grid, exhaustive=True, note="14 rendering lengths x 6 first-request sizes x 5 follow-up sizes x 5 block numbers"),
+            Sub("key_pairs", run_case, cases=cases_key_pairs, exhaustive=True, note="two interleaved transfers whose keys differ in one query entry / query order / method / resource / endpoint"),
             Sub("slow_transfers", run_case, cases=cases_slow_transfers, exhaustive=True, note="2-6 blocks x gap 1/50/60/92 s x with/without a second client's abandoned transfer x szx 0/2, then Block2 read-back at the same pace"),
             Sub("histories", run_case, strategy=_case, budget={"quick": 3000, "thorough": 250000}, max_wall={"quick": 55, "thorough": 3600}),
         ],
